@@ -21,14 +21,14 @@ NET_POST = """
         final(w).net.trust_roots == old(w).net.trust_roots,
         final(endpoint).root_certificates == old(endpoint).root_certificates,
         final(endpoint).dir == old(endpoint).dir, final(endpoint).url == old(endpoint).url, final(endpoint).name == old(endpoint).name,
-        final(w).clock >= old(w).clock,
+        final(w).clock >= old(w).clock, final(w).fs == old(w).fs,
 """
 DB_PRE = "        forall|n: &str, u: &str| data_builder.requires((n, u)),\n"
 
 LOOP_NET_INV = """
         w.net.trust_roots == roots_content(endpoint.root_certificates@),        nonce_sync(*endpoint, *w), endpoint.rl.inv(*w), w.net.trust_roots == old(w).net.trust_roots,
         endpoint.root_certificates == old(endpoint).root_certificates, endpoint.dir == old(endpoint).dir,
-        endpoint.url == old(endpoint).url, endpoint.name == old(endpoint).name, w.clock >= old(w).clock,
+        endpoint.url == old(endpoint).url, endpoint.name == old(endpoint).name, w.clock >= old(w).clock, w.fs == old(w).fs,
 """
 
 
@@ -60,7 +60,7 @@ def contracts():
     requires old(endpoint).rl.inv(*old(w)),
     ensures final(endpoint).rl.inv(*final(w)), //@C09.limiter_inv
         final(w).net == (Net { permit: true, ..old(w).net }), //@C09.pass_granted_by_limiter
-        final(w).clock >= old(w).clock,
+        final(w).clock >= old(w).clock, final(w).fs == old(w).fs,
         final(endpoint).nonce == old(endpoint).nonce, final(endpoint).root_certificates == old(endpoint).root_certificates,
         final(endpoint).dir == old(endpoint).dir, final(endpoint).url == old(endpoint).url, final(endpoint).name == old(endpoint).name,
 """)
@@ -74,7 +74,7 @@ def contracts():
             proof {
                 let i = it.index@;
                 assert(root_certs@.take(i + 1) =~= root_certs@.take(i).push(root_certs@[i]));
-                assert(roots_content(root_certs@.take(i + 1)) =~= roots_content(root_certs@.take(i)).push(crate::vfs::file_content(root_certs@[i]@)));
+                assert(roots_content(root_certs@.take(i + 1)) =~= roots_content(root_certs@.take(i)).push(crate::rootfs::file_content(root_certs@[i]@)));
             }"""),
           ("before_stmt", "Ok(client_builder.build", 1, "proof { assert(root_certs@.take(root_certs@.len() as int) =~= root_certs@); }")],
         rewrites=[("T-PARSE", r"(?P<e>\"[^\"]*\"|\w+)\.parse\(\)", r"crate::reqwest::header::parse_header_value(&\g<e>)", None)])
@@ -173,7 +173,7 @@ def build():
     # --- http module
     u.module("http", "use crate::*;\nuse crate::acme_proto::structs::*;\nuse crate::endpoint::Endpoint;\n"
              "use crate::acme_common::error::Error;\nuse crate::reqwest;\nuse crate::reqwest::header::{HeaderMap, HeaderValue};\n"
-             "use crate::reqwest::{header, Client, ClientBuilder, Response};\nuse crate::vfs::File;\nuse std::{thread, time};")
+             "use crate::reqwest::{header, Client, ClientBuilder, Response};\nuse crate::rootfs::File;\nuse std::{thread, time};")
     for cst in ["CONTENT_TYPE_JOSE", "CONTENT_TYPE_JSON", "CONTENT_TYPE_PEM", "HEADER_NONCE", "HEADER_LOCATION"]:
         u.take(H, cst, "http")
     u.take(H, "ValidHttpResponse", "http")
@@ -278,7 +278,7 @@ pub open spec fn nonce_view(n: Option<String>) -> Option<Seq<char>> {
 // the endpoint's stored nonce is the newest well-formed nonce the server issued
 pub open spec fn nonce_sync(e: Endpoint, w: World) -> bool { nonce_view(e.nonce) == w.net.latest_nonce }
 pub open spec fn roots_content(files: Seq<String>) -> Seq<Seq<u8>> {
-    files.map_values(|s: String| crate::vfs::file_content(s@))
+    files.map_values(|s: String| crate::rootfs::file_content(s@))
 }
 pub open spec fn recoverable_body(b: Seq<char>) -> bool {
     json_spec::<HttpApiError>(b) matches Some(e) && is_recoverable_spec(acme_type_of(e))
